@@ -732,11 +732,12 @@ impl TransactionBuilder {
                         let cur: u64 = (&by(&input.output.amount).unwrap_or(BigNum::zero())).into();
                         let new: u64 = (&by(&new_input.output.amount).unwrap_or(BigNum::zero())).into();
                         let min: u64 = (&by(&output.amount).unwrap_or(BigNum::zero())).into();
-                        let ideal = 2 * min;
-                        let max = 3 * min;
+                        // in 128 bits: twice / three times a coin need not fit 64 bits
+                        let ideal = 2 * (min as u128);
+                        let max = 3 * (min as u128);
                         let move_closer =
                             (ideal as i128 - new as i128).abs() < (ideal as i128 - cur as i128).abs();
-                        let not_exceed_max = new < max;
+                        let not_exceed_max = (new as u128) < max;
                         if move_closer && not_exceed_max {
                             std::mem::swap(i, j);
                             // after the swap `i` is the newly associated input and `j` the one given back
